@@ -52,6 +52,7 @@ type FuncContract struct {
 	NoInv     bool
 	MayPanic  bool
 	NoSafety  bool
+	CutAfter  string // verify only the prefix of the body up to the first call of this callee
 	Pure      bool
 	NoOverflow bool
 	NilRecv   bool
@@ -166,7 +167,7 @@ func loadContracts(repo string) (*Contracts, error) {
 var clauseKeywords = map[string]bool{
 	"func": true, "type": true, "pred": true, "fun": true, "lemma": true,
 	"requires": true, "ensures": true, "modifies": true, "invariant": true, "decreases": true,
-	"update": true, "option": true, "ghost": true, "guarded": true, "frozen": true, "props": true, "callsite": true, "havoc": true, "callers": true, "pool": true, "yields": true, "crash_invariant": true,
+	"update": true, "option": true, "ghost": true, "guarded": true, "frozen": true, "props": true, "callsite": true, "havoc": true, "callers": true, "cutafter": true, "pool": true, "yields": true, "crash_invariant": true,
 }
 
 func (C *Contracts) errorf(format string, a ...any) {
@@ -385,6 +386,11 @@ func (C *Contracts) parseFile(pkg, file, src string) {
 						curF.Callers = append(curF.Callers, qual(p))
 					}
 				}
+			}
+		case "cutafter":
+			// "cutafter <callee>": only the part of the function up to (and including) the first call of <callee> is verified
+			if curF != nil {
+				curF.CutAfter = strings.TrimSpace(rest)
 			}
 		case "havoc":
 			if curF != nil {
